@@ -159,6 +159,7 @@ func c13(r *core.Run) {
 	r.Explanation = "Static rules over the block-emission path (functions reachable from the jklmint BeginBlock): the value minted, the value recorded as MintedBlock.Minted and the base handed to the three split functions are one SSA value; that value is the result of the recurrence function whose shape is trunc(prev − decrease/blocksPerYear) with prev read from the record keyed height−1 and the new record keyed height; the value is non-negative by an explicit sign guard; each split transfer depends on its own ratio parameter and the base, with recipients {fee collector, constant dev-grants account, Param(StorageStipendAddress)} and no other bank call from the mint module; every path after a successful mint reaches the record write."
 	r.Assumptions = []string{T1, T3, T6}
 	r.NotDecided = []string{"'fewer than three base units remain' (numeric)", "numeric non-increase beyond the shape/sign argument"}
+	r.Rule("C13/R10", "the distribution is not cut short by a computed condition: in every jklmint function on the BeginBlock path that moves coins, a branch leading only to failing returns is decided by the error of a call (a transfer, an address parse), never by an amount")
 	r.Rule("C13/R9", "the mint parameters used are the governance-set ones: GetParams of the mint module is a faithful read of the parameter store and each key of its ParamSetPairs is bound to the Params field confirmed for it")
 	r.Rule("C13/R8", "every share of the block emission is converted to whole units by truncation only: the shares cannot add up to more than was minted")
 	r.Rule("C13/R7", "emission records are visited/deleted only through point keys, prefix iterators or ranges with text-safe bounds: no range bound built from a variable-width decimal (the previous block's record must still exist at the next block)")
@@ -181,6 +182,16 @@ func c13(r *core.Run) {
 	if entry == nil {
 		r.Undecided("C13/R1", "jklmint:BeginBlock:anchor-missing", "", "jklmint BeginBlock calls nothing")
 		return
+	}
+	// R10: the distribution steps fail only on errors of what they call
+	{
+		var steps []*ssa.Function
+		for _, fn := range p.Summary(entry).Funcs {
+			if core.ModuleOf(fn) == "jklmint" && len(p.Summary(fn).Bank) > 0 {
+				steps = append(steps, fn)
+			}
+		}
+		r.Floor("C13/R10", failsOnlyOnErrors(r, "C13/R10", steps), 3, "failing branches of the distribution steps")
 	}
 	// the emission call: a call on the path whose callee has the recurrence shape; its function is the unit
 	var unit *ssa.Function
